@@ -278,7 +278,18 @@ func runOne(spec RunSpec, verbose bool) *RunResult {
 				case "unwind":
 					rep = nat.Timeout || nat.Crashed
 				case "frozen-write":
-					rep = true // not observable natively: the write is in the symbolic trace; triaged by reading
+					// a write to shared pre-existing memory during a query: confirmed natively by the race detector
+					// (two goroutines run the queries concurrently) or by a visible state change
+					rn, rerr := raceReplay(spec, path)
+					if rerr == nil && (rn.Race || len(rn.Failures) > 0) {
+						rep = true
+						r.Native = rn.summary()
+					}
+					for _, f := range nat.Failures {
+						if f == "state-unchanged-by-queries" {
+							rep = true
+						}
+					}
 				}
 				switch {
 				case nat.AssumeFailed:
@@ -395,12 +406,15 @@ type nativeResult struct {
 	Timeout      bool            `json:"timeout"`
 	Failures     []string        `json:"failures"`
 	Covered      map[string]bool `json:"covered"`
+	Race         bool            `json:"race"`
 	Crashed      bool            `json:"crashed"` // process died (stack overflow / fatal error)
 	CrashMsg     string          `json:"crash_msg"`
 }
 
 func (n *nativeResult) summary() string {
 	switch {
+	case n.Race:
+		return "native (race detector): DATA RACE reported while two goroutines ran the queries"
 	case n.Crashed:
 		return "native: process crashed: " + n.CrashMsg
 	case n.Timeout:
@@ -436,6 +450,24 @@ func nativeReplay(spec RunSpec, path string) (*nativeResult, error) {
 	return runReplayBin(bin, path)
 }
 
+var raceOnce sync.Once
+var raceErr error
+
+// raceReplay runs the replay under the race detector (binary built on first use, next to the normal one).
+func raceReplay(spec RunSpec, path string) (*nativeResult, error) {
+	bin := spec.ReplayBin + ".race"
+	raceOnce.Do(func() {
+		if _, err := os.Stat(bin + ".ready"); err == nil {
+			return
+		}
+		raceErr = buildReplayBinOpts(bin, true)
+	})
+	if raceErr != nil {
+		return nil, raceErr
+	}
+	return runReplayBin(bin, path)
+}
+
 func runReplayBin(bin, path string) (*nativeResult, error) {
 	cmd := exec.Command("timeout", "-k", "5", "120", bin, "-test.run", "^TestVrfReplay$", "-test.count=1", "-test.timeout=100s")
 	cmd.Env = append(os.Environ(), "VRF_REPLAY="+path)
@@ -450,8 +482,12 @@ func runReplayBin(bin, path string) (*nativeResult, error) {
 			if err := json.Unmarshal([]byte(line[len("VRF-RESULT "):]), &n); err != nil {
 				return nil, err
 			}
+			n.Race = strings.Contains(outS, "DATA RACE")
 			return &n, nil
 		}
+	}
+	if strings.Contains(outS, "DATA RACE") {
+		return &nativeResult{Race: true}, nil
 	}
 	n := &nativeResult{Crashed: true}
 	switch {
@@ -477,7 +513,9 @@ func firstLine(s string) string {
 }
 
 // buildReplayBin compiles the native replay test binary from /repo's working tree + harness overlay.
-func buildReplayBin(bin string) error {
+func buildReplayBin(bin string) error { return buildReplayBinOpts(bin, false) }
+
+func buildReplayBinOpts(bin string, race bool) error {
 	dir := filepath.Dir(bin)
 	ov := map[string]map[string]string{"Replace": {}}
 	for _, f := range harnessFiles() {
@@ -485,11 +523,16 @@ func buildReplayBin(bin string) error {
 	}
 	ov["Replace"][filepath.Join(RepoDir, "zz_vrf_replay_test.go")] = filepath.Join(HarnessDir, "replay_test.go.txt")
 	b, _ := json.Marshal(ov)
-	ovPath := filepath.Join(dir, "overlay.json")
+	ovPath := filepath.Join(dir, filepath.Base(bin)+".overlay.json")
 	if err := os.WriteFile(ovPath, b, 0o644); err != nil {
 		return err
 	}
-	cmd := exec.Command("go", "test", "-c", "-mod=readonly", "-vet=off", "-overlay", ovPath, "-o", bin, ".")
+	args := []string{"test", "-c", "-mod=readonly", "-vet=off", "-overlay", ovPath, "-o", bin}
+	if race {
+		args = append(args, "-race")
+	}
+	args = append(args, ".")
+	cmd := exec.Command("go", args...)
 	cmd.Dir = RepoDir
 	cmd.Env = append(os.Environ(), "GOFLAGS=", "GOPROXY=off", "GOSUMDB=off", "GOTOOLCHAIN=local")
 	out, err := cmd.CombinedOutput()
